@@ -16,6 +16,11 @@ type teEntryRunC07 struct {
 	run  func(r *vlib.Run, g string)
 }
 
+type curveEntryRunC07GT struct {
+	name string
+	run  func(r *vlib.Run, g string)
+}
+
 type curveEntryRunC07S struct {
 	name string
 	run  func(r *vlib.Run, g string)
@@ -33,6 +38,11 @@ func main() {
 		bodies[c.name] = func() { c.run(r, c.name) }
 	}
 	if r.Shard() == "" {
+		for _, c := range curvesRunC07GT {
+			c := c
+			names = append(names, c.name+"/GT")
+			bodies[c.name+"/GT"] = func() { c.run(r, c.name+"/GT") }
+		}
 		for _, t := range tesRunC07 {
 			t := t
 			names = append(names, t.name)
